@@ -62,6 +62,22 @@ func (s *Sim) model(ch interface{}) *chanModel {
 	return s.chans[k]
 }
 
+// preinit lists the channels made before any simulation existed (package initialisation).
+var preinit []preinitChan
+
+type preinitChan struct {
+	key  uintptr
+	cap  int
+	keep interface{}
+}
+
+func (s *Sim) registerPreinit() {
+	for _, p := range preinit {
+		s.nchan++
+		s.chans[p.key] = &chanModel{id: s.nchan, nm: "ch" + strconv.Itoa(s.nchan), cap: p.cap, keep: p.keep}
+	}
+}
+
 // Make is make(chan T, n) under the simulation.
 func Make[T any](n ...int) chan T {
 	c := 0
@@ -73,6 +89,12 @@ func Make[T any](n ...int) chan T {
 	}
 	ch := make(chan T)
 	s := S
+	if s == nil {
+		// a package-level channel of the code under test, created while the program initialises:
+		// every simulated run gets a fresh model of it (registerPreinit)
+		preinit = append(preinit, preinitChan{chanKey(ch), c, ch})
+		return ch
+	}
 	s.nchan++
 	s.chans[chanKey(ch)] = &chanModel{id: s.nchan, nm: "ch" + strconv.Itoa(s.nchan), cap: c, keep: ch}
 	if s.cfg.YieldOnMake && !s.inTimerSetup {
